@@ -22,7 +22,8 @@ theorem ColData.append_empty (a : ColData) : a.append {} = a := by
 
 /-- the caller's arrays hold what the counts say -/
 def BatchWF (b : Batch) : Prop :=
-  (b.nrows = 0 → b.vals = []) ∧ (∀ ds, b.defs = some ds → ds.length = b.nrows)
+  (b.nrows = 0 → b.vals = []) ∧ (∀ ds, b.defs = some ds → ds.length = b.nrows) ∧
+  (∀ rs, b.reps = some rs → rs.length = b.nrows)
 
 /-! ### abstraction of concrete states -/
 
@@ -50,9 +51,9 @@ def PagesOf (D : Deps) (codec : Nat) (c : Col) (ps : List PageRec) : Prop :=
 
 theorem addValues_data (D : Deps) (c : Col) (p : Page) (b : Batch) :
     pageData (addValues D c p b) = (pageData p).append (batchData c b) := by
-  obtain ⟨col, nrows, defs, vals⟩ := b
+  obtain ⟨col, nrows, defs, vals, reps⟩ := b
   unfold addValues pageData batchData ColData.append
-  cases defs <;> by_cases h1 : c.maxDef > 0 <;> by_cases h2 : c.maxRep > 0 <;> simp [h1, h2]
+  cases defs <;> cases reps <;> by_cases h1 : c.maxDef > 0 <;> by_cases h2 : c.maxRep > 0 <;> simp [h1, h2]
 
 theorem addValues_wf (D : Deps) (c : Col) (p : Page) (b : Batch) (hp : PageWF p) (hb : BatchWF b) :
     PageWF (addValues D c p b) := by
@@ -69,10 +70,15 @@ theorem addValues_wf (D : Deps) (c : Col) (p : Page) (b : Batch) (hp : PageWF p)
     split
     · cases hbd : b.defs with
       | none => simp [hn.2]
-      | some ds => simpa using List.eq_nil_of_length_eq_zero ((hb.2 ds hbd).trans hn.2)
+      | some ds => simpa using List.eq_nil_of_length_eq_zero ((hb.2.1 ds hbd).trans hn.2)
     · rfl
   have e3 : (pageData (addValues D c p b)).reps = [] := by
-    rw [hd]; simp [ColData.append, pageData, batchData, q3, hn.2]
+    rw [hd]; simp only [ColData.append, pageData, batchData, q3, List.nil_append]
+    split
+    · cases hbr : b.reps with
+      | none => simp [hn.2]
+      | some rs => simpa using List.eq_nil_of_length_eq_zero ((hb.2.2 rs hbr).trans hn.2)
+    · rfl
   exact ⟨e1, e2, e3⟩
 
 /-- per-column invariant (needs the column, unlike `ColInv`) -/
